@@ -17,7 +17,7 @@ n == Len(hist)
 Init == heap = <<>> /\ hist = <<>>
 
 Next ==
-    \/ n = 0 /\ \E d \in Ds, R \in Rs, s \in Offs : ANewPdfChol(d, R, s)
+    \/ n = 0 /\ \E cls \in {"PDF", "DiagPDF"}, d \in Ds, R \in Rs, s \in Offs : ANewPdfCholC(cls, d, R, s)
     \/ n = 1 /\ LET p == heap[1] IN
          \/ \E ns \in NSamples : ASample(1, ns, "stream", "int", 0, 0, 0, 0)
          \/ \E s0 \in 1..2, r0 \in 1..NumR(p), c0 \in 1..NumD(p) : ASample(1, 2, "stream", "onehot", s0, r0, c0, 0)
